@@ -13,6 +13,7 @@ import (
 	"go/types"
 	"sort"
 	"strings"
+	"sync"
 
 	"golang.org/x/tools/go/ssa"
 )
@@ -30,6 +31,8 @@ type Prepass struct {
 	FuncValues  []*ssa.Function            // functions used as values (closures, method values)
 	LockTouch   map[*ssa.Function]bool     // transitively calls a lock operation / lock-effect contract
 	ChanOps     map[*ssa.Function]bool
+	frozen      bool // set when RunPrepass is done
+	mu          sync.Mutex
 }
 
 type KeySet map[string]bool
@@ -163,6 +166,7 @@ func RunPrepass(p *Program) *Prepass {
 			stack = append(stack, pp.Callees[c]...)
 		}
 	}
+	pp.frozen = true
 	return pp
 }
 
@@ -390,6 +394,12 @@ func (pp *Prepass) freshAddr(v ssa.Value, scope map[*ssa.BasicBlock]bool, depth 
 }
 
 func (pp *Prepass) instrWritesIn(fn *ssa.Function, ins ssa.Instruction, ws KeySet, scope map[*ssa.BasicBlock]bool) {
+	if pp.frozen {
+		// called from verification threads (loop write-sets): the type map
+		// of the pre-pass has unsynchronised caches
+		pp.mu.Lock()
+		defer pp.mu.Unlock()
+	}
 	tm := pp.tm
 	switch x := ins.(type) {
 	case *ssa.Store:
@@ -454,7 +464,9 @@ func (pp *Prepass) instrWritesIn(fn *ssa.Function, ins ssa.Instruction, ws KeySe
 				ws["G:"+g.Map] = true
 			}
 			pp.stubFrameKeys(fc, cc, ws)
-			if len(fc.LockFx) > 0 && fn != nil {
+			if len(fc.LockFx) > 0 && fn != nil && !pp.frozen {
+				// (only while the pre-pass itself runs: afterwards the
+				// tables are shared read-only between verification threads)
 				pp.LockTouch[fn] = true
 			}
 			// acquiring a lock exposes the state it guards to interference:
